@@ -19,6 +19,9 @@
 (*     kind \in {"real","circ","self","depth","unres"}                     *)
 (*     fields = set of property keys (what C02 judges), circ = the         *)
 (*     _is_circular_ref mark put on a REAL schema by lines 902-921.        *)
+(*   x.foreign = names under which a parse call for one node was answered  *)
+(*     with the REAL entry built from a DIFFERENT node (the registry is    *)
+(*     keyed by derived name only): AnswersOwnNode says this never happens.*)
 (* The small-step view that C08 needs is recovered by replaying `ev`       *)
 (* through the CycleTrackerCore step functions (the same functions the     *)
 (* trace monitor uses).  `fuel` turns a non-terminating DESIGN into a      *)
@@ -39,8 +42,10 @@
 (***************************************************************************)
 EXTENDS CycleTrackerCore, TLC
 
-Placeholder(n, kind) == [name |-> n, kind |-> kind, fields |-> {}, circ |-> kind = "circ"]
-Anonymous == [name |-> NoName, kind |-> "real", fields |-> {}, circ |-> FALSE]
+\* src = identity (document path) of the raw node an entry was built from; "ph" / "anon" / "unres" for entries built from no node
+\* ch = content hash of that node (harness-supplied): two nodes with equal content mean the same, answering one with the other is harmless
+Placeholder(n, kind) == [name |-> n, kind |-> kind, fields |-> {}, circ |-> kind = "circ", src |-> "ph", ch |-> "ph"]
+Anonymous == [name |-> NoName, kind |-> "real", fields |-> {}, circ |-> FALSE, src |-> "anon", ch |-> "anon"]
 
 HasKey(f, k) == k \in DOMAIN f
 Put(f, k, v) == [x \in (DOMAIN f) \cup {k} |-> IF x = k THEN v ELSE f[x]]
@@ -71,6 +76,12 @@ Promotable(e) == e.kind \notin {"unres", "depth", "circ"}
 RECURSIVE Parse(_, _, _, _, _, _), Body(_, _, _, _, _, _), ResolveRef(_, _, _, _, _),
           Members(_, _, _, _, _, _), Props(_, _, _, _, _, _, _), OwnDotted(_, _, _, _, _, _, _)
 
+\* a call for `node` under name n is answered with the registered entry: foreign when that entry is a real schema built from another node
+Answered(x, n, node) ==
+  LET e1 == x.ps[n] IN
+  IF node.k = "schema" /\ e1.kind = "real" /\ ~e1.circ /\ e1.src \notin {node.nid, "ph", "anon", "unres"} /\ e1.ch # node.ch
+  THEN [x EXCEPT !.foreign = @ \cup {n}] ELSE x
+
 \* _parse_schema(name, node, allow_self_reference=allowSelf); raw = raw_spec_schemas (name -> node)
 Parse(c, raw, x, n, node, allowSelf) ==
   IF x.fuel = 0 THEN [x |-> x, res |-> Anonymous]
@@ -79,14 +90,14 @@ Parse(c, raw, x, n, node, allowSelf) ==
       e == DoEnter(c, x0, n, allowSelf)
   IN CASE e.o = "existing" ->
             LET x1 == DoExit(e.x, n) IN
-            IF n # NoName /\ HasKey(x1.ps, n) THEN [x |-> x1, res |-> x1.ps[n]]
+            IF n # NoName /\ HasKey(x1.ps, n) THEN [x |-> Answered(x1, n, node), res |-> x1.ps[n]]
             ELSE \* state reset, body parsed WITHOUT a new enter, exit again in `finally`
               LET x2 == IF n # NoName THEN [x1 EXCEPT !.t = [x1.t EXCEPT !.st = SetSt(x1.t, n, "NS")]] ELSE x1
                   b == Body(c, raw, x2, n, node, allowSelf)
               IN [x |-> DoExit(b.x, n), res |-> b.res]
        [] e.o = "placeholder" ->
             LET x1 == DoExit(e.x, n) IN
-            [x |-> x1, res |-> IF HasKey(x1.ps, n) THEN x1.ps[n] ELSE [Anonymous EXCEPT !.name = n]]
+            [x |-> IF HasKey(x1.ps, n) THEN Answered(x1, n, node) ELSE x1, res |-> IF HasKey(x1.ps, n) THEN x1.ps[n] ELSE [Anonymous EXCEPT !.name = n]]
        [] e.o \in {"create_cycle", "create_depth"} ->
             [x |-> DoExit(e.x, n), res |-> e.ph]
        [] OTHER ->   \* continue
@@ -96,7 +107,7 @@ Parse(c, raw, x, n, node, allowSelf) ==
 \* _resolve_ref: reuse a registered schema (unless it is a depth placeholder), else parse the referenced schema
 ResolveRef(c, raw, x, target, allowSelf) ==
   IF HasKey(x.ps, target) /\ x.ps[target].kind # "depth" THEN [x |-> x, res |-> x.ps[target]]
-  ELSE IF ~HasKey(raw, target) THEN [x |-> x, res |-> [name |-> target, kind |-> "unres", fields |-> {}, circ |-> FALSE]]
+  ELSE IF ~HasKey(raw, target) THEN [x |-> x, res |-> [name |-> target, kind |-> "unres", fields |-> {}, circ |-> FALSE, src |-> "unres", ch |-> "unres"]]
   ELSE Parse(c, raw, x, target, raw[target], allowSelf)
 
 \* parse a sequence of anonymous member nodes (oneOf / anyOf / allOf); acc collects the member results
@@ -160,7 +171,7 @@ Body(c, raw, x, n, node, allowSelf) ==
       ap == IF node.addl # <<>> THEN Parse(c, raw, i1.x, NoName, node.addl[1], allowSelf) ELSE [x |-> i1.x, res |-> Anonymous]
       i2 == IF node.type = "array" /\ node.items # <<>> /\ ~typeless THEN Parse(c, raw, ap.x, itemName, node.items[1], allowSelf) ELSE [x |-> ap.x, res |-> Anonymous]
       xf == i2.x
-      me0 == [name |-> IF n = NoName THEN NoName ELSE San(c, n), kind |-> "real", fields |-> IF isObj THEN pr.keys ELSE {}, circ |-> FALSE]
+      me0 == [name |-> IF n = NoName THEN NoName ELSE San(c, n), kind |-> "real", fields |-> IF isObj THEN pr.keys ELSE {}, circ |-> FALSE, src |-> node.nid, ch |-> node.ch]
       \* lines 902-921: a REAL schema that starts and ends a detected cycle is marked circular (direct or through an Item)
       marked == n # NoName /\ \E p \in xf.cyc : p[1] = n /\ p[Len(p)] = n /\ (Len(p) = 2 \/ (Len(p) = 3 /\ p[2] \in c.hasItem))
       me == [me0 EXCEPT !.circ = marked]
@@ -178,10 +189,11 @@ Build(c, raw, x, order) ==
        IF HasKey(x.ps, n) THEN Build(c, raw, x, Tail(order))
        ELSE Build(c, raw, Parse(c, raw, x, n, raw[n], TRUE).x, Tail(order))
 
-InitCtx(fuel) == [t |-> [stack |-> <<>>, st |-> <<>>, depth |-> 0, reg |-> {}], ps |-> <<>>, ev |-> <<>>, cyc |-> {}, fuel |-> fuel]
+InitCtx(fuel) == [t |-> [stack |-> <<>>, st |-> <<>>, depth |-> 0, reg |-> {}], ps |-> <<>>, ev |-> <<>>, cyc |-> {}, foreign |-> {}, fuel |-> fuel]
 
 \* ---- what the design promises (evaluated on the result)
 Terminated(x) == x.fuel > 0
 AtRestAfter(x) == AtRestS(x.t)
 ModelFields(x, n) == IF HasKey(x.ps, n) THEN x.ps[n].fields ELSE {}
+AnswersOwnNode(x) == x.foreign = {}
 =============================================================================
